@@ -578,6 +578,11 @@ def template_schemas(rng, with_signers):
         out.append({'rules': [R('#m1', [P(p1), P('_t'), L(b)], [[('_t', [L(a), P(p1)])]]), R('#m2', [P(p1), P('_t'), L(c)], [[('_t', [L(a)]), ('_t', [P(p1)])]])]})
         # inherited + added constraints on the same pattern
         out.append({'rules': [R('#base', [P(p1), L(a)], [[(p1, [L(b), L(c)])]]), R('#ext', [('ref', '#base'), P(p2)], [[(p1, [L(c), L(a)]), (p2, [P(p1)])]])]})
+        # an inherited constraint that offers a literal OR a pattern, an added one whose literals share nothing with that literal, and
+        # a second alternative set: the name that satisfies the inherited constraint through its pattern option matches
+        out.append({'rules': [R('#r1', [P(p1), P(p2)], [[(p2, [L(a), P(p1)])]]), R('#r2', [('ref', '#r1'), L(c)], [[(p2, [L(b)])], [(p2, [L(a)])]])]})
+        out.append({'rules': [R('#r1', [P(p1), P(p2)], [[(p2, [L(a), ('fn', '$eq', [P(p1)])])]]), R('#r1', [P(p1), P(p2)], [[(p2, [L(c)])]]),
+                              R('#r2', [('ref', '#r1'), P(p3)], [[(p2, [L(b), L(c)]), (p3, [P(p2)])]])]})
     else:
         k1, k2 = '#k1', '#k2'
         # one packet name matches two signed rules that bind the shared pattern differently
@@ -625,6 +630,12 @@ def template_schemas(rng, with_signers):
                               R(k2, [L('L1'), P(p2), L(a), L(c), P(p1)])]})
         out.append({'rules': [R('#pkt', [L('L0'), P(p1), P(p3)], None, [k1, k2]), R(k1, [L('L1'), P(p1), P(p3), L(b)]),
                               R(k2, [L('L1'), P(p2), P('_'), L(c), P(p3), P(p1)])]})
+        # a rule that is defined a second time further down, AFTER rules that embed it (everything else is defined before it is used):
+        # the embedding rules mean both definitions
+        out.append({'rules': [R('#root', [L('L2'), P('_')]), R('#zone', [L(a), P(p1)]), R('#zk', [('ref', '#zone'), L('KEY'), P('_')], None, ['#root']),
+                              R('#rec', [('ref', '#zone'), L(b), P('_')], None, ['#zk']), R('#zone', [L(a), P(p1), P(p2)])],
+                    'probes': [([a, 'zz', c, b, 'zz'], [a, 'zz', c, 'KEY', 'zz']), ([a, 'zz', b, 'zz'], [a, 'zz', 'KEY', c]), ([a, 'zz', c, 'KEY', 'zz'], ['L2', 'zz']),
+                               ([a, 'zz', 'KEY', 'zz'], ['L2', c]), ([a, 'zz', c, b, 'zz'], [a, 'zz', 'KEY', 'zz']), ([a, 'zz', c, b, 'zz'], [a, 'zz', b, 'KEY', 'zz'])]})
         # the shared pattern is the highest-numbered named pattern; temporaries next to it
         out.append({'rules': [R('#pkt', [L('L0'), P(p1), P(p2), P('_')], None, [k1]), R(k1, [L('L1'), P(p1), P(p2)], None, [k2]),
                               R(k2, [L('L2'), P('_'), P(p2)])]})
